@@ -276,12 +276,19 @@ inductive Prim (α : Type) where
   | fail
   deriving Repr, DecidableEq
 
+/-- error path of a primitive that met a head of the wrong type: `Error::type_mismatch(self.type_of(b)?)`.
+    For the negative-integer heads `0x38..=0x3b`, minicbor 0.26 `type_of` peeks at `buf[pos + 1]` *after* the
+    head byte has been consumed, i.e. at the second byte after the head: with fewer than two bytes left
+    the error is end-of-input instead of a type mismatch. -/
+def mismatch {α : Type} (b : UInt8) (rest : Bytes) : Prim α :=
+  if 0x38 ≤ b.toNat ∧ b.toNat ≤ 0x3b ∧ rest.length < 2 then .eoi else .fail
+
 /-- `Decoder::array`: any definite head of major type 4 (`Some(len)`), or `0x9f` (`None`); the length is
     returned but the keep-alive decoder ignores it -/
 def primArray : Bytes → Prim (Option Nat)
   | [] => .eoi
   | b :: rest =>
-    if b.toNat / 32 ≠ 4 then .fail
+    if b.toNat / 32 ≠ 4 then mismatch b rest
     else if b.toNat % 32 = 31 then .ok none 1
     else if b.toNat % 32 ≥ 28 then .fail
     else
@@ -293,7 +300,7 @@ def primArray : Bytes → Prim (Option Nat)
 def primU16 : Bytes → Prim UInt16
   | [] => .eoi
   | b :: rest =>
-    if b.toNat / 32 ≠ 0 then .fail
+    if b.toNat / 32 ≠ 0 then mismatch b rest
     else if b.toNat % 32 ≥ 28 then .fail
     else
       match headArg (b.toNat % 32) rest with
